@@ -163,6 +163,15 @@ def chain(svg, out, x0, tags, what, reify=True, files=False):
             shutil.rmtree(d, ignore_errors=True)
 
 
+def decorate(doc):
+    """the probe shapes after the wrapped subtree get paints at the ends of the alpha range, in the colour value itself
+    and as separate opacity attributes"""
+    doc = doc.replace('<rect id="after"', '<rect id="after" fill="rgba(10,20,30,0)" stroke="transparent" stroke-width="2"')
+    doc = doc.replace('<circle id="after2"', '<circle id="after2" fill="#12345601" stroke="rgb(1,2,3)" stroke-opacity="0"')
+    doc = doc.replace('<line id="after3"', '<line id="after3" stroke="#abcdeffe" fill="none"')
+    return doc
+
+
 class Parsed(SubCheck):
     name = "parsed"
 
@@ -179,7 +188,7 @@ class Parsed(SubCheck):
     def case(self, i):
         ri, ch, li, reify = self.p[i]
         return dict(root=c03.ROOTS[ri][0], chain=list(ch), leaf=c03.LEAVES[li][0], reify=reify,
-                    doc=c03.build_doc(c03.ROOTS[ri][1], ch, c03.LEAVES[li][1]))
+                    doc=decorate(c03.build_doc(c03.ROOTS[ri][1], ch, c03.LEAVES[li][1])))
 
     def run(self, case):
         out = Outcome()
@@ -203,7 +212,10 @@ KINDS = ["rect", "rrect", "circle", "ellipse", "line", "polyline", "polygon", "p
 TRANS = [None, "translate(5,7)", "rotate(30)", "scale(2,3)", "scale(-1,1)", "skewX(20)", "matrix(1,0.5,0.2,1.5,3,4)",
          "matrix(1,0.5,2,-1.5,-3,4)"]
 PAINTS = [dict(fill="black"), dict(fill="none", stroke="#ff0000"), dict(fill="#336699", stroke="blue", stroke_width=2.5),
-          dict(fill="#33669980", stroke="#00ff0040", stroke_width=0.5)]
+          dict(fill="#33669980", stroke="#00ff0040", stroke_width=0.5),
+          # the ends of the alpha range: 0 (falsy), 1 and 254 (next to the ends), in both paint slots
+          dict(fill="#33669900", stroke="#00ff0001", stroke_width=1.5),
+          dict(fill="#336699fe", stroke="#00ff0000", stroke_width=1.5)]
 LAYOUTS = ["flat", "group", "nested", "group-transformed", "two"]
 ROOTSET = [dict(), dict(viewBox="0 0 100 50", width=200, height=100), dict(width="2in", height="1in", viewBox="0 0 96 48"),
            dict(viewBox="10 20 50 50", width=100, height=200)]
